@@ -106,7 +106,9 @@ def handleJson (args : List String) : String :=
       let tab := parseFloatTable tabS
       let L := tableLib tab
       -- the hypothesis JsonLib.OK, checked on every float of the case
-      let bad := tab.filter fun t => !(Spec.Json.isNumber (floatText L (BitVec.ofNat 64 t.1)))
+      let bad := tab.filter fun t =>
+        let txt := floatText L (BitVec.ofNat 64 t.1)
+        !(Spec.Json.isNumber txt) || txt.any (fun x => x == 0x22 || x == 0x5C || x < 0x20)
       if bad.isEmpty then showJsonRes (marshal L v)
       else "ASSUMPTION-VIOLATED float_token"
     | _ => "bad-op"
